@@ -40,7 +40,7 @@ def run(ctx):
     ctx.rule = ("every route-returning class on random small instances with constraints (edge coverage 1, 1/2, 3/4; length coverage "
                 "on DAG classes), ignore sets, error scalings, additional starts/ends, edge and node mode; metamorphic partner "
                 "instances; non-trivial = instance has a constraint, an ignored element or an additional start/end")
-    n = ctx.budget(200, 5000)
+    n = ctx.budget(420, 8000)
     for i in range(n):
         rng = ctx.rng("c10", i)
         name = zoo.ALL[i % len(zoo.ALL)]
@@ -50,7 +50,7 @@ def run(ctx):
                         with_starts=(rng.random() < 0.4) if name in zoo.HAS_STARTS else False, exact=rng.random() < 0.5)
         kw = info["kwargs"]
         cov = 1.0
-        if info["cons"] and rng.random() < 0.4:
+        if info["cons"] and "coverage_length" not in info and rng.random() < 0.4:
             cov = rng.choice([0.5, 0.75])
             kw["subset_constraints_coverage" if cyclic else "subpath_constraints_coverage"] = cov
         rep = {"instance": zoo.describe(info)}
@@ -84,7 +84,11 @@ def run(ctx):
                 if not ok:
                     ctx.report(f"{name}: a node-level constraint is not contained to fraction {cov} in a single route", rep); continue
             else:
-                why = props.constraint_covered(cons_e, routes, coverage=cov, as_set=cyclic)
+                lengths = None; frac = cov
+                if "coverage_length" in info:          # coverage measured by edge length (missing length = 1)
+                    lengths = {e: info["G"].edges[e].get("len", 1) for e in info["G"].edges()}
+                    frac = info["coverage_length"]
+                why = props.constraint_covered(cons_e, routes, coverage=frac, lengths=lengths, as_set=cyclic)
                 if why:
                     ctx.report(f"{name}: {why} (coverage {cov})", rep); continue
             ctx.count("E2_constraints", "covered")
@@ -122,17 +126,20 @@ def run(ctx):
                 ctx.report(f"{name}: error scale 0 on the ignored elements made the model raise {e!r}", rep); continue
         # (4) optimum over exactly the admissible routes (constraints, starts/ends): MinPathCover vs exhaustive
         if name == "MinPathCover" and not node:
+            lengths = None; frac = cov
+            if "coverage_length" in info:
+                lengths = {e: info["G"].edges[e].get("len", 1) for e in info["G"].edges()}; frac = info["coverage_length"]
             kmin = oracles.min_path_cover_bf(info["G"], ignore=info["ignore"], starts=info["starts"], ends=info["ends"],
-                                             cons=info["cons"], coverage=cov)
+                                             cons=info["cons"], coverage=frac, lengths=lengths)
             ctx.count("E2_optimum_with_features", "cases")
             if kmin is not None and kmin != len(routes):
                 ctx.report(f"MinPathCover returned {len(routes)} paths; the minimum over the admissible routes satisfying the constraints is {kmin}", rep); continue
 
     # (5) constraints that a solution does not satisfy by accident: sub-sequences of arbitrary routes of the
     #     graph, given to the cover models (always satisfiable for k large enough)
-    for i in range(ctx.budget(80, 2000)):
+    for i in range(ctx.budget(260, 4000)):
         rng = ctx.rng("advcons", i)
-        cyclic = i % 3 == 2
+        cyclic = i % 2 == 1
         if cyclic:
             G = gen.rand_cyclic(rng, nmax=5)
             routes0 = [w for w in (gen.rand_walk(rng, G, maxlen=8) for _ in range(3)) if w]
@@ -144,6 +151,14 @@ def run(ctx):
         cons = [c for c in gen2.rand_constraints(rng, [rng.choice(routes0) for _ in range(3)], maxn=3, contiguous=False) if c]
         if not cons:
             continue
+        mixed = False
+        if cyclic and rng.random() < 0.5:
+            # a constraint mixing edges of two different walks: it may be impossible to put them on ONE walk; then the
+            # model must not claim to be solved with a solution that does not contain it
+            w1, w2 = rng.choice(routes0), rng.choice(routes0)
+            e1_, e2_ = list(zip(w1, w1[1:])), list(zip(w2, w2[1:]))
+            if e1_ and e2_:
+                cons.append([rng.choice(e1_), rng.choice(e2_)] + ([rng.choice(e1_)] if rng.random() < 0.5 else [])); mixed = True
         cov = rng.choice([1.0, 1.0, 0.5])
         rep = {"edges": [list(e) for e in G.edges()], "constraints": cons, "coverage": cov, "cyclic": cyclic}
         try:
@@ -156,7 +171,9 @@ def run(ctx):
             ctx.report(f"cover model with constraints raised {e!r}", rep); continue
         ctx.case(["advcons", rep], nontrivial=True); ctx.count("E2_adversarial_constraints", "cases")
         if not m.is_solved():
-            ctx.report("minimum cover with satisfiable constraints not solved", rep); continue
+            if not mixed:
+                ctx.report("minimum cover with satisfiable constraints not solved", rep)
+            continue
         routes = m.get_solution()["walks" if cyclic else "paths"]
         rep["solution"] = routes
         why = props.constraint_covered(cons, routes, coverage=cov, as_set=cyclic)
